@@ -60,6 +60,9 @@ pub fn programs() -> Vec<(&'static str, Module, bool)> {
             false,
         ),
         ("leaves-stack-values", module(vec![("main", func(&[], vec![int(1), s("stray string"), C::CreateTable, sg("g", int(3))]))]), false),
+        // Abort ends the run with Ok from inside nested calls and scopes
+        ("abort-in-nested-call", module(vec![("main", func(&[], vec![sg("before", int(1)), sg("r", call("f", vec![int(1)])), sg("never", int(1))])), ("f", func(&["x"], vec![sv("l", s("local of f")), C::Return(b(call("g", vec![rv("x")])))])), ("g", func(&["y"], vec![sv("m", C::CreateTable), C::Repeat { n: b(int(3)), i: Some("i".into()), body: b(C::IfTrue(b(rv("i")), b(C::Abort))) }, C::Return(b(int(1)))]))]), true),
+        ("abort-in-closure", module(vec![("main", func(&[], vec![sv("x", int(5)), sv("c", C::Closure(vec![], vec![sv("x", add(rv("x"), int(1))), C::Abort])), sg("before", rv("x")), sg("r", C::DynCall(b(rv("c")), vec![])), sg("never", int(1))]))]), true),
         ("reads-global", module(vec![("main", func(&[], vec![sg("g", int(7)), sg("h", add(rv("g"), int(1)))]))]), true),
     ]
 }
